@@ -218,7 +218,9 @@ func hotspotMod() *parserMod {
 				v := rng.Intn(1000) - 100
 				if rng.Intn(3) == 0 {
 					// values outside the int32 range (ids, timestamps): int items are platform ints
-					v = int(vk.PickI64(rng, 3000000000, -3000000000, 1<<40, 2147483648, -2147483649, 4294967296))
+					v = int(vk.PickI64(rng, 3000000000, -3000000000, 1<<40, 2147483648, -2147483649, 4294967296,
+						// 64-bit ids: not representable as a float64 (odd above 2^53), and the ends of the int64 range
+						1234567890123456789, 9007199254740993, -9007199254740993, 9223372036854775807, -9223372036854775808, 1<<62+1))
 				}
 				r.SpecificItems[v] = thr
 				items = append(items, fmt.Sprintf(`{"valKind":0,"valStr":%s,"threshold":%d}`, q(strconv.Itoa(v)), thr))
